@@ -1095,3 +1095,84 @@ package redis
 //@   callpre setResponse @answered-only-by-the-child-that-brings-the-count-to-zero atomi32[r.childWait] == 0
 //@   assume @before:setResponse forall k int :: 0 <= k && k < len(r.children) ==> r.children[k] != nil && r.children[k].resp != nil
 //@   ensures @every-finished-child-is-counted-exactly-once atomdecs[r.childWait] == old(atomdecs[r.childWait]) + 1
+
+// ---- C10/C09/C01: constructors: a new reader, decoder and session start in their invariants -----------------
+
+//@ func NewReaderSize
+//@   prop C10 C11 C01
+//@   modifies nothing
+//@   ensures @a-new-reader-is-empty-and-well-formed result != nil && (!typeis(rd, "*Reader") ==> fresh(result) && readerRI(result) && result.r == 0 && result.w == 0 && result.err == nil && isnil(result.slice.buf) && disjoint(result.buf, result.slice.buf) && result.rd == rd && len(result.buf) == ite(size <= 0, 4096, size))
+
+//@ func NewReader
+//@   prop C10 C11
+//@   modifies nothing
+//@   ensures @a-new-reader-is-empty-and-well-formed result != nil && (!typeis(rd, "*Reader") ==> fresh(result) && readerRI(result) && result.r == 0 && result.w == 0 && result.err == nil && isnil(result.slice.buf) && disjoint(result.buf, result.slice.buf) && result.rd == rd)
+
+//@ func newDecoder
+//@   prop C10 C11 C01
+//@   modifies nothing
+//@   ensures @a-new-decoder-is-well-formed result != nil && fresh(result) && result.err == nil && result.depth == 0 && (!typeis(r, "*Reader") ==> decoderOK(result))
+
+//@ func newEncoder
+//@   prop C10 C01
+//@   modifies nothing
+//@   ensures @a-new-encoder-has-no-error result != nil && fresh(result) && result.err == nil && result.bw != nil
+
+//@ func newSession
+//@   prop C09 C01
+//@   requires !typeis(conn, "*Reader")
+//@   modifies nothing
+//@   ensures @a-new-session-is-wired-and-not-finished result != nil && fresh(result) && result.p == p && result.conn == conn && result.dec != nil && decoderOK(result.dec) && result.enc != nil && result.processingReqs != nil && result.quit != nil && !closed(result.quit) && result.done != nil && !closed(result.done)
+
+//@ func (*session).doQuit
+//@   prop C09
+//@   requires s != nil
+//@   modifies all
+
+//@ func (*redisProc).handleConn
+//@   prop C09 C01
+//@   requires p != nil
+//@   requires @handlers-wellformed forall k string :: has(p.cmdHdlrs, k) ==> p.cmdHdlrs[k] != nil
+//@   assume !typeis(conn, "*Reader")
+//@   modifies all
+
+// ---- C08/C09: the redis processor hands endpoint changes to its upstream unchanged and stops both halves ------
+
+//@ func (*redisProc).OnSvcHostAdd
+//@   prop C08 C07
+//@   requires p != nil && p.u != nil && setok(p.u.hosts) && cachefresh(p.u.hosts) && forall k int :: 0 <= k && k < len(hosts) ==> hosts[k] != nil
+//@   requires @one-host-per-address-in-a-call forall a int, b int :: 0 <= a && a < b && b < len(hosts) ==> hosts[a].Addr != hosts[b].Addr
+//@   modifies all, trigcount
+//@   callpre OnHostAdd @the-pushed-hosts-go-to-the-upstream-unchanged arg0 == p.u && sameslice(arg1, hosts)
+
+//@ func (*redisProc).OnSvcHostRemove
+//@   prop C08 C07
+//@   requires p != nil && p.u != nil && setok(p.u.hosts) && cachefresh(p.u.hosts) && forall k int :: 0 <= k && k < len(hosts) ==> hosts[k] != nil
+//@   modifies all, trigcount
+//@   callpre OnHostRemove @the-removed-hosts-go-to-the-upstream-unchanged arg0 == p.u && sameslice(arg1, hosts)
+
+//@ func (*redisProc).OnSvcAllHostReplace
+//@   prop C08 C07
+//@   requires p != nil && p.u != nil && setok(p.u.hosts) && cachefresh(p.u.hosts) && forall k int :: 0 <= k && k < len(hosts) ==> hosts[k] != nil
+//@   requires @one-host-per-address-in-a-call forall a int, b int :: 0 <= a && a < b && b < len(hosts) ==> hosts[a].Addr != hosts[b].Addr
+//@   modifies all, trigcount
+//@   callpre OnHostReplace @the-pushed-hosts-go-to-the-upstream-unchanged arg0 == p.u && sameslice(arg1, hosts)
+
+//@ func (*redisProc).StopListen
+//@   prop C09
+//@   requires p != nil
+//@   callpre Drain @the-listener-of-this-processor-is-drained arg0 == p.l
+
+//@ func (*redisProc).Stop
+//@   prop C09
+//@   requires p != nil && p.u != nil
+//@   modifies all
+//@   callpre upstream).Stop @the-upstream-of-this-processor-is-stopped arg0 == p.u
+//@   assume @before:upstream).Stop p.u.quit != nil && !closed(p.u.quit) && p.u.done != nil
+//@   callpre Listener).Stop @the-listener-of-this-processor-is-stopped arg0 == p.l
+
+//@ func (*upstream).Stop
+//@   prop C09
+//@   requires u != nil && u.quit != nil && !closed(u.quit) && u.done != nil
+//@   modifies all
+//@   ensures @returns-only-after-the-serve-loop-has-finished waitedfor(u.done)
